@@ -73,6 +73,7 @@ type Exec struct {
 	boxed      map[*Term]Value
 	reveal     map[string]bool
 	closeSites map[string]bool
+	hitSites   map[string]bool
 }
 
 func NewExec(P *Program, S *Specs, key string) *Exec {
